@@ -67,6 +67,30 @@ static inline %(T)s* vf_seq_%(G)s_erase(struct vf_seq_%(G)s* s, %(T)s* it)
   s->n--;
   return it;
 }
+/* insert / erase(first,last): exact for sequences of at most VF_CAP elements (constant-bound loops: the driver unwinds
+   them completely, see check.json "unwindset" when loop contracts are applied to the units) */
+static inline %(T)s* vf_seq_%(G)s_insert(struct vf_seq_%(G)s* s, %(T)s* it, %(T)s v)
+{
+  size_t i = (size_t)(it - (s->d + s->h));
+  __CPROVER_assert(i <= s->n, "vf_seq insert position in range");
+  __CPROVER_assert(s->n <= VF_CAP, "vf_seq within model capacity");
+  __CPROVER_assume(s->h + s->n < s->cap);
+  for (size_t j = VF_CAP; j > 0; j--) { if (j <= s->n && j > i) s->d[s->h + j] = s->d[s->h + j - 1]; }
+  s->d[s->h + i] = v;
+  s->n++;
+  return s->d + s->h + i;
+}
+static inline %(T)s* vf_seq_%(G)s_erase_range(struct vf_seq_%(G)s* s, %(T)s* first, %(T)s* last)
+{
+  size_t ia = (size_t)(first - (s->d + s->h));
+  size_t ib = (size_t)(last - (s->d + s->h));
+  __CPROVER_assert(ia <= ib && ib <= s->n, "vf_seq erase range in range");
+  __CPROVER_assert(s->n <= VF_CAP, "vf_seq within model capacity");
+  size_t k = ib - ia;
+  for (size_t j = 0; j < VF_CAP; j++) { if (j >= ia && j + k < s->n) s->d[s->h + j] = s->d[s->h + j + k]; }
+  s->n -= k;
+  return first;
+}
 '''
 
 SEQ_EXTRA = r'''
